@@ -684,11 +684,25 @@ impl Prop for C14 {
             let functions = stdlib();
             let vars: Variables = exec::make_globals(&case.prog.globals, &|_| None);
             let lazy = rng.chance(1, 2);
+            // every other graph is the result of two executions into one graph (the second in
+            // the other mode): syntax nodes registered by the first are already there
+            let twice = rng.chance(1, 2);
             let r = catch(|| {
                 let config = ExecutionConfig::new(&functions, &vars).lazy(lazy);
-                file.execute(&tree2, &case.source, &config, &NoCancellation)
+                if twice {
+                    let mut g = tree_sitter_graph::graph::Graph::new();
+                    file.execute_into(&mut g, &tree2, &case.source, &config, &NoCancellation)?;
+                    let config2 = ExecutionConfig::new(&functions, &vars).lazy(!lazy);
+                    file.execute_into(&mut g, &tree2, &case.source, &config2, &NoCancellation)?;
+                    Ok(g)
+                } else {
+                    file.execute(&tree2, &case.source, &config, &NoCancellation)
+                }
             });
             if let Ok(Ok(graph)) = r {
+                if twice {
+                    out.feat("graph_of_two_executions_into_one_graph");
+                }
                 let cj = || case_json(&case.text, &case.source, &case.prog.globals);
                 if let Some(g) = check_graph(&graph, &ti2, out, &cj) {
                     out.feat("executed_graph");
